@@ -53,9 +53,9 @@ Definition pdffit_sites_expected : list site := [
   ("parseLines", "int", [1], 1);
   ("parseLines", "next", [1], 5);
   ("parseLines", "raise:StructureFormatError", [], 1);
-  ("parseLines", "raise:StructureFormatError", [1], 3);
+  ("parseLines", "raise:StructureFormatError", [1], 4);
   ("parseLines", "strformat", [], 1);
-  ("parseLines", "strformat", [1], 3);
+  ("parseLines", "strformat", [1], 4);
   ("parseLines", "unbound:latpars", [1], 2)
 ].
 
